@@ -149,14 +149,6 @@ fn normalise_error(e: &str) -> String {
     out.chars().take(120).collect()
 }
 
-fn node_kind(line: &str) -> String {
-    line.trim_start().split([':', ' ', '(', ',']).next().unwrap_or("").to_string()
-}
-
-fn indent_of(l: &str) -> usize {
-    l.len() - l.trim_start().len()
-}
-
 fn plan_text(p: &Arc<dyn ExecutionPlan>) -> String {
     displayable(p.as_ref()).set_show_schema(true).indent(true).to_string()
 }
@@ -178,7 +170,7 @@ fn tree_fails(sql: &str, conf: &str, a: &Arc<dyn ExecutionPlan>, b: &Arc<dyn Exe
         st.operators.push(a.name().to_string());
     }
     let here = format!("{path}/{}", a.name());
-    let mut push = |out: &mut Vec<Fail>, aspect: &str, what: String| {
+    let push = |out: &mut Vec<Fail>, aspect: &str, what: String| {
         let cause = format!("node_changed:{}:{aspect}", a.name());
         if !out.iter().any(|f| f.cause == cause) {
             out.push(Fail { cause, what });
@@ -187,7 +179,12 @@ fn tree_fails(sql: &str, conf: &str, a: &Arc<dyn ExecutionPlan>, b: &Arc<dyn Exe
     let (ca, cb) = (a.children(), b.children());
     let mut below: Vec<&'static str> = vec![];
     if a.name() != b.name() || ca.len() != cb.len() {
-        push(out, "shape", format!("node {here} ({} children) became {} ({} children) in the round trip of {sql} [{conf}]\noriginal subtree:\n{}\ndecoded subtree:\n{}", ca.len(), b.name(), cb.len(), plan_text(a), plan_text(b)));
+        // keyed by the parent whose child list changed
+        let parent = path.rsplit('/').next().unwrap_or("").split('[').next().unwrap_or("").to_string();
+        let cause = format!("node_changed:{}:children_shape", if parent.is_empty() { a.name().to_string() } else { parent });
+        if !out.iter().any(|f| f.cause == cause) {
+            out.push(Fail { cause, what: format!("node {here} ({} children) became {} ({} children) in the round trip of {sql} [{conf}]\noriginal subtree:\n{}\ndecoded subtree:\n{}", ca.len(), b.name(), cb.len(), plan_text(a), plan_text(b)) });
+        }
         return vec!["shape"];
     }
     for (i, (x, y)) in ca.iter().zip(cb.iter()).enumerate() {
@@ -210,7 +207,10 @@ fn tree_fails(sql: &str, conf: &str, a: &Arc<dyn ExecutionPlan>, b: &Arc<dyn Exe
     let anything_below = !below.is_empty();
     for (what, x, y) in props {
         if x != y && !below.contains(&what) {
-            push(out, what, format!("{what} of node {here} changed in the round trip of {sql} [{conf}] (no child of it differs in {what}): `{x}` became `{y}`\nnode: {}", node_line(a)));
+            // derived bottom-up: with any difference below, this one is taken as its consequence
+            if !anything_below {
+                push(out, what, format!("{what} of node {here} changed in the round trip of {sql} [{conf}] (no child of it differs in {what}): `{x}` became `{y}`\nnode: {}", node_line(a)));
+            }
             below.push(what);
         }
     }
